@@ -3,6 +3,7 @@ import HexVerif.Lemmas.XcmpIAm
 import HexVerif.Lemmas.XcmpStage3
 import HexVerif.Lemmas.XcmpWitness
 import HexVerif.Lemmas.XcmpV1
+import HexVerif.Lemmas.XcmpV2
 import HexVerif.Xcmp.Compile
 import HexVerif.X.Sem
 /-!
@@ -48,8 +49,22 @@ import HexVerif.X.Sem
     names: `peep_run` (Lemmas/XcmpPeep.lean) - every terminating `IAm` run on the list before the
     pass, laid out through the list after it, is a run on the list after it; deleted
     instructions are stutter steps.  `C01_v1_partial` goes through it.
-  Open: stage (4) (user calls), and replacing the reflective check by a proof that it always
-  succeeds.
+  * stage (4) `C01_stage4_partial` (`Lemmas/XcmpStage4*.lean`): user procedures and functions with
+    `val` formals, recursion included - by induction on the fuel of the reference semantics, the
+    statement triples of EVERY procedure in EVERY activation within the stack budget
+    (`X.maxDepth` frames) together with the specification `CallSpec` of every callee (entered at
+    its prologue with the link in areg and the actuals in the caller's outgoing slots, it returns
+    to the link label with the stack pointer restored, the caller's frame intact except `sp[0]`,
+    `sp[1]`, and the global state of the reference semantics in memory; or exits).  Restriction
+    (decidable, `okS4`): calls occur as `p(args)`, `v := f(args)`, `return f(args)` with call-free
+    actuals; `var` declarations only; no local or formal is named like a global.
+  * `C01_v2_partial`: the FULL statement above, end to end, for the class `v2Ok P` (decidable): any
+    number of procedures and functions in the stage-4 fragment whose compilation passes the
+    reflective check `v2Check` (per procedure: `PCtx.WFS` at the lowest stack pointer - lifted to
+    every activation by `wfs_shift` -, code positions, frame accounting, symbol-table facts; and
+    `imageWords <= spv - 64 * Smax`).
+  Open: user calls inside operands, `val`/array declarations and formals, subscripts and strings;
+  replacing the reflective checks by a proof that they always succeed.
 -/
 namespace Hex.C01
 open Hex Hex.Isa
@@ -248,6 +263,59 @@ example : ∃ img, Xcmp.compile demoV1 = .ok img := by
   | ok img => exact ⟨img, rfl⟩
   | error e =>
     have : (match Xcmp.compile demoV1 with | .ok _ => true | .error _ => false) = true := by decide +kernel
+    rw [h] at this
+    simp at this
+
+/-! ### Stage (4): user procedures and functions -/
+
+/-- **`C01_stage4_partial`.**  For a program context `G` with `G.OK` (established by the check
+    `v2Check`), every fuel: (a) every statement of the stage-4 fragment (`okS4`: stage 3 plus
+    `p(args)`, `v := f(args)`, `return f(args)` with call-free actuals), compiled inside ANY
+    procedure of the program and run in ANY activation within the stack budget, does what
+    `X.exec` says (triple `ExecS`); (b) every procedure satisfies `CallSpec`: called with the link
+    address in areg and its actuals in the caller's outgoing area, it returns to the link label
+    with the caller's frame intact, the stack pointer restored, a function's value in `sp[1]` and
+    the global state of the reference semantics in memory - or it terminates the program with the
+    right exit code; the I/O is that of the reference semantics. -/
+theorem C01_stage4_partial (G : C01s.GCtx) (ok : G.OK) (fuel : Nat) :
+    C01s.StmtSpec G fuel ∧ C01s.CallSpec G fuel :=
+  ⟨(C01s.all_correct ok fuel).1, (C01s.all_correct ok fuel).2.2⟩
+
+/-- **`C01_v2_partial`.**  The full C01 statement for the programs that satisfy the decidable
+    predicate `C01s.v2Ok`: procedures and functions with `val` formals (recursion allowed), global
+    and local `var`s, bodies in the stage-4 fragment, whose compilation passes `C01s.v2Check`. -/
+theorem C01_v2_partial (P : X.Program) (inp : X.Input) (n : Nat) (β : X.Behaviour) (img : Asm.Image)
+    (hr : C01s.v2Ok P = true) :
+    X.run P inp n = .defined β →
+    Xcmp.compile P = .ok img →
+    ∃ m, Exhibits (Isa.run m (Am.boot img) (Isa.IOSt.init inp.stdin inp.files)) inp β := by
+  intro hrun hcomp
+  obtain ⟨m, code, j, s', io, h1, h2, h3, h4⟩ := C01s.v2_whole P inp n β img hr hcomp hrun
+  exact ⟨m, code, j, s', io, h1, h2, h3, h4⟩
+
+/-- `var g;
+     func sum(val n) is var t; if n = 0 then return 1 else { t := sum(n - 1); return t + n }
+     proc put2(val a, val b) is { 1(a, 0); 1(b, 0) }
+     proc main() is var r; { r := sum(4); g := r + 55; put2(g, g + 1); 0(r) }` -/
+def demoV2 : X.Program :=
+  { globals := [.var "g"],
+    procs := [
+      { isFunc := true, name := "sum", formals := [.val "n"], locals := [.var "t"],
+        body := .ite (.bin .eq (.name "n") (.num 0)) (.ret (.num 1)) (.seq [.assign "t" (.call "sum" [.bin .minus (.name "n") (.num 1)]), .ret (.bin .plus (.name "t") (.name "n"))]) },
+      { isFunc := false, name := "put2", formals := [.val "a", .val "b"], locals := [],
+        body := .seq [.syscall 1 [.name "a", .num 0], .syscall 1 [.name "b", .num 0]] },
+      { isFunc := false, name := "main", formals := [], locals := [.var "r"],
+        body := .seq [.assign "r" (.call "sum" [.num 4]), .assign "g" (.bin .plus (.name "r") (.num 55)), .call "put2" [.name "g", .bin .plus (.name "g") (.num 1)], .syscall 0 [.name "r"]] }] }
+
+/-! Non-vacuity: `demoV2` (a recursive function, a two-parameter procedure, a global) is in the
+    class, has a defined behaviour (two characters written, exit value 11) and compiles. -/
+example : C01s.v2Ok demoV2 = true := by decide +kernel
+example : behaviourIs (X.run demoV2 ⟨[], fun _ => []⟩ 1000) 11 2 = true := by decide +kernel
+example : ∃ img, Xcmp.compile demoV2 = .ok img := by
+  cases h : Xcmp.compile demoV2 with
+  | ok img => exact ⟨img, rfl⟩
+  | error e =>
+    have : (match Xcmp.compile demoV2 with | .ok _ => true | .error _ => false) = true := by decide +kernel
     rw [h] at this
     simp at this
 
